@@ -207,3 +207,13 @@ pub fn size_bucket(n: usize) -> &'static str {
         _ => "l",
     }
 }
+
+/// Drive a set of futures concurrently on the current task (the futures borrow the check's context, so they
+/// cannot be spawned).
+pub async fn join_all<'a>(mut futs: Vec<std::pin::Pin<Box<dyn std::future::Future<Output = ()> + 'a>>>) {
+    std::future::poll_fn(move |cx| {
+        futs.retain_mut(|f| f.as_mut().poll(cx).is_pending());
+        if futs.is_empty() { std::task::Poll::Ready(()) } else { std::task::Poll::Pending }
+    })
+    .await
+}
